@@ -1,6 +1,6 @@
 """C02 The hash equals the value defined by the written specification."""
 import astq
-from rules import aes, argon, blake, decode, driver, dsinit, interpsem, spec, sshash, x86loop, rtpreserve, a64sem, a64hsem, rvhsem, x86hsem, a64dsread, rvdsread, a64fp
+from rules import aes, argon, blake, decode, driver, dsinit, interpsem, spec, sshash, x86loop, rtpreserve, a64sem, a64hsem, rvhsem, x86hsem, a64dsread, rvdsread, a64fp, rvfp
 
 LEVEL = 'other'
 TECHNIQUE = 'constant-table and step-sequence agreement between doc/specs.md (parsed tables, hex blocks, lane diagrams) and the resolved AST / assembled objects; FIPS-197 decomposition for the AES round'
@@ -20,6 +20,8 @@ EXPLANATION += ' X86-HSEM/-MEM/-FP, A64-HSEM/-MEM, A64-IMMHELP, RV-HSEM/-MEM, A6
 EXPLANATION += ' X86-/A64-/RV-LOOPLOAD.'
 
 EXPLANATION += ' A64-FP-HSEM.'
+
+EXPLANATION += ' RV-FP-HSEM.'
 
 
 def run(ctx, R):
@@ -75,3 +77,4 @@ def run(ctx, R):
     rvdsread.rule_dsread_light(ctx, R)
     rtpreserve.rule_store_order(ctx, R, 'rv64')
     a64fp.rule_fp_hsem(ctx, R)
+    rvfp.rule_fp_hsem(ctx, R)
